@@ -163,7 +163,15 @@ def judgeClosure (i : Json) (g : Graph) (kind : String) (nOps : Nat) (obs : List
         match (poolObs last).findSome? fun x => if x.st == "waiting" then preFalseAtoms g x else none with
         | some w => some s!"stall-partial: every finished task is complete, but the workflow stalled instead of shutting down: {w}"
         | none => some "every finished task is complete but the scheduler stalled with no unsatisfied waiting task"
-      else some "every finished task is complete but the scheduler neither shut down by itself nor stalled"
+      else
+        -- a proxy that was removed while its job was active (suicide trigger) and later revived from the history
+        -- with that stale active status: its job's messages went to no proxy, it stays "active" for ever
+        let removedActive : List (Int × String) := (obs.flatMap removedOf).filterMap fun r =>
+          if r.2.2.1 == "submitted" || r.2.2.1 == "running" || r.2.2.1 == "preparing" then some (r.1, r.2.1) else none
+        match (poolObs last).find? fun x =>
+            (x.st == "submitted" || x.st == "running" || x.st == "preparing") && removedActive.contains (x.p, x.n) with
+        | some x => some s!"zombie-revived: {x.p}/{x.n} was removed while {x.st} and revived from the history with that status; its job has ended, the scheduler neither shuts down nor stalls"
+        | none => some "every finished task is complete but the scheduler neither shut down by itself nor stalled"
     else if stop != some "AUTOMATIC" then none
     else
       if hasSui then none else
